@@ -1086,11 +1086,21 @@ class CircuitDAG(CircuitBase):
                     reg_type=op["q_registers_type"][0],
                 )
             else:
-                gate = ops.name_to_class_map(op["type"])
-                gate = gate()
-                gate.q_registers = op["q_registers"]
-                gate.q_registers_type = op["q_registers_type"]
-                gate.c_registers = op["c_registers"]
+                gate_class = ops.name_to_class_map(op["type"])
+                q_regs, q_types = op["q_registers"], op["q_registers_type"]
+                # build through the constructor, so that the role attributes (reg_type, control_type, ...) are set
+                if len(q_regs) == 1:
+                    kwargs = dict(register=q_regs[0], reg_type=q_types[0])
+                else:
+                    kwargs = dict(
+                        control=q_regs[0],
+                        control_type=q_types[0],
+                        target=q_regs[1],
+                        target_type=q_types[1],
+                    )
+                if len(op["c_registers"]) == 1:
+                    kwargs["c_register"] = op["c_registers"][0]
+                gate = gate_class(**kwargs)
 
             circuit.add(gate)
 
